@@ -98,6 +98,8 @@ func verifPoisonIntact(p []byte) (off int, ok bool) {
 	return 0, true
 }
 
+const verifPoolHooked = true
+
 func verifPoolGet(buf []byte) {
 	base := unsafe.SliceData(buf)
 	key := uintptr(unsafe.Pointer(base))
